@@ -243,6 +243,12 @@ impl TcpNameserver {
         while self.qid2reply.contains_key(&msg.out_query.qid) {
             msg.out_query.qid = msg.out_query.qid.wrapping_add(1);
         }
+        if self.qid2reply.is_empty() {
+            /* Nothing was outstanding, so the other end had nothing to say: only start
+             * counting its silence from now.
+             */
+            self.tcp_last_recv_activity = Instant::now();
+        }
         self.qid2reply.insert(
             msg.out_query.qid,
             (msg.out_query.question.clone(), msg.out_reply),
